@@ -463,7 +463,10 @@ func (c fcol) ev(wide, row bool) map[string]interface{} {
 }
 
 func randFcol(rng *rand.Rand, wide, row bool) fcol {
-	dt := int(allColTypes[rng.Intn(len(allColTypes))])
+	return randFcolDt(rng, wide, row, int(allColTypes[rng.Intn(len(allColTypes))]))
+}
+
+func randFcolDt(rng *rand.Rand, wide, row bool, dt int) fcol {
 	c := fcol{Dt: dt, Name: randText(rng, rng.Intn(8)), Locale: randText(rng, rng.Intn(3)), UserType: rng.Intn(1 << 20),
 		Label: []int{}, Catalogue: []int{}, Schema: []int{}, Table: []int{}, TableName: []int{}}
 	if wide {
@@ -565,7 +568,11 @@ func colsOf(fmts []tds.FieldFmt, wide, row bool) []map[string]interface{} {
 	return out
 }
 
-func (r *wireRun) format(doPrefix bool) {
+func (r *wireRun) format(doPrefix bool) { r.formatWith(doPrefix, -1) }
+
+// formatWith: lastDt >= 0 makes that data type the last column (what follows a cut-off last field is
+// the end of the package, not another field that would notice)
+func (r *wireRun) formatWith(doPrefix bool, lastDt int) {
 	r.scn()
 	kinds := []struct {
 		kind      string
@@ -574,10 +581,16 @@ func (r *wireRun) format(doPrefix bool) {
 	}{{"PARAMFMT", tokParamFmt, false, false}, {"PARAMFMT2", tokParamFmt2, true, false}, {"ROWFMT", tokRowFmt, false, true}, {"ROWFMT2", tokRowFmt2, true, true}}
 	k := kinds[r.rng.Intn(4)]
 	n := r.rng.Intn(5)
+	if lastDt >= 0 {
+		n = 1 + r.rng.Intn(3)
+	}
 	var cols []fcol
 	var evcols []map[string]interface{}
 	for i := 0; i < n; i++ {
 		c := randFcol(r.rng, k.wide, k.row)
+		if lastDt >= 0 && i == n-1 {
+			c = randFcolDt(r.rng, k.wide, k.row, lastDt)
+		}
 		if !(k.row && k.wide) {
 			c.Label, c.Catalogue, c.Schema, c.Table = []int{}, []int{}, []int{}, []int{}
 		}
@@ -1238,6 +1251,11 @@ func wireMain(args []string) error {
 	}
 	for i := 0; i < *count*3; i++ {
 		r.format(*prefix)
+	}
+	// every data type as the last column of a format (and of the data package behind it)
+	for _, dt := range allColTypes {
+		r.formatWith(*prefix, int(dt))
+		r.formatWith(*prefix, int(dt))
 	}
 	for i := 0; i < *count; i++ {
 		r.envchange(*prefix)
